@@ -1872,6 +1872,13 @@ theorem Inv.evWDstream {w : World} (h : Inv w) (i k : Nat) : Inv (evWDstream w i
         · exact h
         · exact (h.evDstream i).evWrite i k
 
+theorem Inv.evNextW {w : World} (h : Inv w) (i : Nat) : Inv (evNextW w i).1 := by
+  unfold Pool.evNextW
+  have h1 := h.evNext i
+  generalize Pool.evNext w i = r at h1 ⊢
+  obtain ⟨w1, o⟩ := r
+  cases o <;> first | exact h1 | exact h1.evNext i
+
 /-- events that only use the pool through the managed ops, the stream adapter, handles and `pop`;
     the raw `BufferPool::take(id)` / `reset(id)` with an arbitrary id are excluded (observation C07a) -/
 def Ev.safe : Ev → Bool
@@ -1901,6 +1908,7 @@ theorem Inv.step {w : World} (h : Inv w) (e : Ev) (hs : e.safe = true) : Inv (st
   | spin i k => exact h.evSpin i k
   | wcancel i k => exact h.evWCancel i k
   | wdstream i k => exact h.evWDstream i k
+  | nextw i => exact h.evNextW i
 
 theorem Inv.run : ∀ (evs : List Ev) {w : World}, Inv w → (∀ e ∈ evs, e.safe = true) → Inv (run w evs)
   | [], w, h, _ => h
